@@ -1559,9 +1559,6 @@ def call_function(self, f: FuncVal, self_val, args, kwargs, run_async=False):
             self.frames.pop()
     if self.depth >= MAX_DEPTH:
         raise Unsupported(f"call depth exceeded at {key} (recursion needs a contract)")
-    if self.pure_mode:
-        from .interp import _NotPure
-        raise _NotPure()
     local = self.bind_args(f, self_val, args, kwargs)
     fr = Frame(f, local, f.module, f.cls)
     if any(_has_yield(f.node)):
